@@ -77,6 +77,9 @@ type Case struct {
 	// Longer: SetCookie is first called for a cookie whose name starts with the
 	// name of the cookie under test ("ck_sig"), then for "ck": both come back.
 	Longer bool `json:"cookie_with_a_longer_name_first,omitempty"`
+	// RawEq: '=' inside the values is sent as it is ("k=YWI=": everything behind
+	// the first '=' of a pair is the value).
+	RawEq bool `json:"equal_signs_in_values_sent_raw,omitempty"`
 }
 
 var junkPairs = []string{"junk=%zz", "%=1", "a=%", "x;y=1", "=", "", "%zz", "b=%4", "c=1;d=2", "e=%%", "=%"}
@@ -255,9 +258,15 @@ func checkCase(c Case) (out evid.Outcome) {
 		if c.EncKey {
 			key = "%6B"
 		}
-		parts := []string{"other=1", key + "=" + first}
+		eq := func(s string) string {
+			if c.RawEq {
+				return strings.ReplaceAll(s, "%3D", "=")
+			}
+			return s
+		}
+		parts := []string{"other=1", key + "=" + eq(first)}
 		for _, m := range c.More {
-			parts = append(parts, key+"="+enc(unq(m)))
+			parts = append(parts, key+"="+eq(enc(unq(m))))
 		}
 		if c.JunkFirst {
 			parts = append(append([]string{}, c.Junk...), parts...)
@@ -577,6 +586,9 @@ func genValue(t *rapid.T) string {
 	case 1:
 		return string(rapid.SliceOfN(rapid.Byte(), 1, 16).Draw(t, "bytes"))
 	case 2:
+		if rapid.IntRange(0, 3).Draw(t, "b64") == 0 {
+			return []string{"YWI=", "YQ==", "a=b", "=", "=x", "x==y=", "1=1"}[rapid.IntRange(0, 6).Draw(t, "eqv")]
+		}
 		return rapid.StringMatching(`[a-z;,=&%+ "\\/?#]{1,10}`).Draw(t, "sep")
 	case 3:
 		return strconv.FormatInt(rapid.Int64().Draw(t, "i64"), 10)
@@ -640,6 +652,7 @@ func genCase(t *rapid.T) Case {
 	c.CaseSibling = rapid.IntRange(0, 3).Draw(t, "casesibling") == 0
 	c.Rewritten = !c.Form && rapid.IntRange(0, 4).Draw(t, "rewritten") == 0
 	c.Longer = rapid.IntRange(0, 3).Draw(t, "longer") == 0
+	c.RawEq = rapid.IntRange(0, 2).Draw(t, "raweq") == 0
 	if rapid.IntRange(0, 4).Draw(t, "rawck") == 0 {
 		c.RawCk = strconv.QuoteToASCII([]string{"%zz", "a b", "\"q\"", "x;y", "a=b", "%41", "\xff", "", "a+b%20c", "%4", "100%"}[rapid.IntRange(0, 10).Draw(t, "rck")])
 		if unq(c.RawCk) == "" {
